@@ -199,10 +199,13 @@ def doActions (w : World) (mid : Nat) (as : List Action) : World × List String 
   | some t => (w.txnExit t, outs)
   | none => (w, outs)
 
+/-- `self.simulated_datetime(market_book.publish_time)`: the framework clock is the publish time -/
+def setClock (w : World) (pt : Time) : World := { w with clock := pt }
+
 /-- `FlumineSimulation._process_market_books` for one market book.  `script s` gives the actions
     strategy `s` performs in its process_market_book callback for this update. -/
 def processMarketBook (w : World) (mid : Nat) (book : Book) (script : Nat → List Action) : World × List (Nat × List String) :=
-  let w := { w with clock := book.pt }
+  let w := w.setClock book.pt
   let w := if w.queue.isEmpty then w else w.checkPendingPackages mid
   if book.status = .closed then (w.processCloseMarket mid book, [])
   else
